@@ -31,6 +31,14 @@ pub uninterp spec fn ord_le<T>(a: T, b: T) -> bool;
 pub assume_specification<T: Ord> [<[T]>::sort] (s: &mut [T])
     ensures sorted_by(final(s)@, |a: T, b: T| ord_le(a, b)),
             final(s)@.to_multiset() == old(s)@.to_multiset();
+/// std: String's Ord is the lexicographic byte order; as a relation on the views (uninterpreted - only its argument matters here)
+pub uninterp spec fn str_ord(a: Seq<char>, b: Seq<char>) -> core::cmp::Ordering;
+pub assume_specification [<String as Ord>::cmp] (a: &String, b: &String) -> (r: core::cmp::Ordering)
+    ensures r == str_ord(a@, b@);
+pub open spec fn enum_shared(e: RustEnum) -> RustEnumShared {
+    match e { RustEnum::Unit(shared) => shared, RustEnum::Algebraic { tag_key, content_key, shared } => shared }
+}
+
 // ---------- C06 vocabulary
 /// no two different items of one kind share a sort key (Ord restricted to the items is a total order)
 pub open spec fn distinct_keys<T>() -> bool { total_ordering(|a: T, b: T| ord_le(a, b)) }
@@ -115,11 +123,28 @@ SORT_WRAP = ('''fn sort_block(parsed_data: &mut ParsedData)
 ''', '\n}\n')
 
 EXT = ('#[verifier::external]\n', '\n')
+
+
+def CMP(ty, key):
+    """T2: the body of `impl Ord for <ty> :: cmp`, re-homed as an inherent method so that it can carry a contract: the sort key of
+    every item kind is exactly the Rust name (`id.original`), compared as strings"""
+    return [ins(A.ret(), '(r: ', where='before'), ins(A.ret(), ')', where='after'),
+            rep(A.text('std::cmp::Ordering'), 'core::cmp::Ordering', tag='T2'),
+            ins(A.sig(), '''
+        ensures /*C06 sort key = the item's Rust name*/ r == str_ord(%s, %s),
+    ''' % (key.replace('X', 'self'), key.replace('X', 'other')), cid='cmp_%s.contract' % ty)]
+
+
+SHARED = [ins(A.ret(), '(r: ', where='before'), ins(A.ret(), ')', where='after'),
+          ins(A.sig(), '''
+        ensures *r == enum_shared(*self),
+    ''', cid='shared.contract')]
 RT = 'core/src/rust_types.rs'
 
 UNIT = Unit(
     name='merge',
     props=['C06', 'C03', 'C07'],
+    spec_files=['chars.rs', 'std_extra.rs'],
     pre_verus=PRE_VERUS,
     prelude=PRELUDE,
     items=[
@@ -130,7 +155,11 @@ UNIT = Unit(
         Item('enum_RustEnum', RT, ['enum RustEnum']),
         Item('struct_RustEnumShared', RT, ['struct RustEnumShared']),
         Item('enum_RustItem', RT, ['enum RustItem']),
-        Item('RustEnum_shared', RT, ['impl RustEnum {', 'fn shared'], wrap=('impl RustEnum {\n', '\n}\n')),
+        Item('RustEnum_shared', RT, ['impl RustEnum {', 'fn shared'], SHARED, wrap=('impl RustEnum {\n', '\n}\n')),
+        Item('cmp_RustStruct', RT, ['impl Ord for RustStruct {', 'fn cmp'], CMP('RustStruct', 'X.id.original@'), wrap=('impl RustStruct { // T2\n', '\n}\n')),
+        Item('cmp_RustConst', RT, ['impl Ord for RustConst {', 'fn cmp'], CMP('RustConst', 'X.id.original@'), wrap=('impl RustConst { // T2\n', '\n}\n')),
+        Item('cmp_RustTypeAlias', RT, ['impl Ord for RustTypeAlias {', 'fn cmp'], CMP('RustTypeAlias', 'X.id.original@'), wrap=('impl RustTypeAlias { // T2\n', '\n}\n')),
+        Item('cmp_RustEnum', RT, ['impl Ord for RustEnum {', 'fn cmp'], CMP('RustEnum', 'enum_shared(*X).id.original@'), wrap=('impl RustEnum { // T2\n', '\n}\n')),
         # the hand-written comparison impls: compiled (rustc needs them for sort / HashSet) but NOT under contract
         Item('impl_PartialEq_RustStruct', RT, ['impl PartialEq for RustStruct'], wrap=EXT),
         Item('impl_Eq_RustStruct', RT, ['impl Eq for RustStruct'], wrap=EXT),
@@ -194,13 +223,14 @@ proof fn lemma_concat_comm<T>(x: Seq<T>, y: Seq<T>)
     lemma_seq_union_to_multiset_commutative(x, y);
 }
 ''',
-    functions=['ParsedData::add_assign', 'ParsedData::push', 'ParsedData::is_empty', 'TypeShareVisitor::collect_result', 'RustEnum::shared', 'sort_block',
+    functions=['RustStruct::cmp', 'RustConst::cmp', 'RustTypeAlias::cmp', 'RustEnum::cmp', 'ParsedData::add_assign', 'ParsedData::push', 'ParsedData::is_empty', 'TypeShareVisitor::collect_result', 'RustEnum::shared', 'sort_block',
                'lemma_arrival_order_independent', 'lemma_concat_comm'],
     trusted=[
         'std: <[T]>::sort leaves the slice sorted w.r.t. Ord (as the uninterpreted relation ord_le) with the same multiset of elements',
         'std: HashSet::extend(other) is set union; vstd contracts of Vec::append/push/is_empty, HashSet::insert, String::clone',
-        'the hand-written PartialEq/Eq/PartialOrd/Ord impls of RustStruct/RustEnum/RustTypeAlias/RustConst are compiled but external '
-        '(not under contract); ord_le stands for them',
+        'the hand-written PartialEq/Eq/PartialOrd/Ord impls of RustStruct/RustEnum/RustTypeAlias/RustConst are compiled but external; the '
+        'four `Ord::cmp` bodies are additionally extracted (same token range) as inherent methods and proved to compare exactly `id.original` '
+        '(std: String::cmp as the uninterpreted relation str_ord); that `sort()` uses these impls, and ord_le == (cmp != Greater), is assumed',
         'outlined (T3): Path::to_string_lossy().into_owned() (file name recorded with an error; not part of the property)',
         'T7 stubs: RustField, RustType, RustConstExpr, DecoratorMap, RustEnumVariant, CrateName, ParseError are opaque',
     ],
